@@ -15,7 +15,7 @@ class C17(Prop):
             'MultiTestResult / ExtendedToStreamDecorator->StreamToExtendedDecorator over extended, testtools.TestResult, TestByTestResult and '
             'old-style (2.6/2.7/Twisted) recording results; histories of 0-6 tests x 1-2 runs over a 4-tag alphabet with tags(new, gone) before the '
             'run, between tests, before and after the outcome and after stopTest, incl. the startTest-less addSkip+stopTest pair; 10% damaged '
-            'histories, 5% overlapping new/gone, 30% of the Taggers remove-only; in 30% of the tests that have tags in force a tags() call removes all of them '
+            'histories, 15% of the tests with a second outcome inside the same startTest/stopTest (unittest 3.12: addFailure + addError), 5% overlapping new/gone, 30% of the Taggers remove-only; in 30% of the tests that have tags in force a tags() call removes all of them '
             'before the outcome (outcome tags = the empty set); 12% of the graphs get an extra stream round trip on top; falsy-but-legal values: tag 3 is the '
             'empty string, test 7 has the empty id, a third of the skip reasons are empty. thorough adds every history of <= 6 calls from {startTestRun, startTest, success, stopTest, '
             'tags +a, tags -a, tags +b} over 8 graphs. non-trivial = a tags call and an outcome and an adapter; distinct = distinct input')
@@ -105,6 +105,11 @@ class C17(Prop):
                     arg = ['details', R.gen_details(rng, allow_empty=False, nonempty_text=True)]   # empty details / attachments are C08's business
                 h.append(['add', kind, tid, arg])
                 tg(0.3)
+                if rng.random() < 0.15:
+                    # a second outcome inside the same bracket (unittest 3.12: failing body + failing tearDown = addFailure, addError)
+                    k2 = rng.choice(['error', 'error', 'failure', 'success'])
+                    h.append(['add', k2, tid, None if k2 == 'success' else ['exc', 'real']])
+                    tg(0.3)
                 h.append(['stopTest', tid])
                 if len(stack) > 1:
                     stack.pop()
